@@ -786,3 +786,13 @@ fire("C14", "tree-mask-cleared-after-orientation", "R14.4", [E(TREE, "sequence_t
 fire("C17", "clamp-lost-in-helper", "R17.2", [E(IW, None, "class InformationWeightTransformer(", "def _rescale_weights(weights, power):\n    return np.power(weights / np.mean(weights), power)\n\n\nclass InformationWeightTransformer("),
                                              E(IW, "InformationWeightTransformer.fit", "            self.supervised_weights_ /= np.mean(self.supervised_weights_)\n            self.supervised_weights_ = np.maximum(self.supervised_weights_, 0.0)\n", "            self.supervised_weights_ = _rescale_weights(self.supervised_weights_, 1.0)\n")],
      "seeded r3_C17 (one of the three blocks): the de-duplicated helper drops the clamp", allow_error=True)
+
+# --- round 3 batch D
+fire("C19", "short-sequence-shortcut-ignores-padding", "R19.5", E(SW, "SlidingWindowTransformer.transform", "        for sequence in X:\n", "        for sequence in X:\n            if np.asarray(sequence).shape[0] < self.window_width:\n                result.append(np.empty((0, self.kernel_output_size_)))\n                continue\n"),
+     "seeded r3_C19: the raw length is compared although the sequence is padded later", allow_error=True)
+silent("C19", "short-sequence-shortcut-padded", E(SW, "SlidingWindowTransformer.transform", "        for sequence in X:\n", "        for sequence in X:\n            if np.asarray(sequence).shape[0] + 2 * self.pad_width < self.window_width:\n                result.append(np.empty((0, self.kernel_output_size_)))\n                continue\n"),
+       "the same shortcut on the padded length")
+silent("C01", "short-sequence-shortcut-padded", E(SW, "SlidingWindowTransformer.transform", "        for sequence in X:\n", "        for sequence in X:\n            if np.asarray(sequence).shape[0] + 2 * self.pad_width < self.window_width:\n                result.append(np.empty((0, self.kernel_output_size_)))\n                continue\n"),
+       "one row is appended on every path through the iteration (append + continue)")
+fire("C18", "kantorovich-cumsum-raw", "R18.6", E(DIST, "kantorovich1d", "    x_cdf = x / x_sum\n    y_cdf = y / y_sum\n", "    x_cdf = np.cumsum(x) / x_sum\n    y_cdf = np.cumsum(y) / y_sum\n"),
+     "seeded r3_C18 (the loop left in place here would double-accumulate; the rule reads the cumsum)", allow_error=True)
